@@ -3,7 +3,7 @@ from __future__ import annotations
 import asyncio
 import logging
 import weakref
-from collections import deque
+from collections import OrderedDict
 from collections.abc import AsyncIterator
 from datetime import datetime, timezone
 from typing import Any
@@ -71,7 +71,9 @@ class MemoryWorkflowStore(AbstractWorkflowStore):
             weakref.WeakValueDictionary()
         )
         self.max_completed = max_completed
-        self._terminal_queue: deque[str] = deque()
+        # Terminal handler ids in the order they became terminal (oldest first).
+        # An ordered set: one entry per terminal handler currently stored.
+        self._terminal_queue: OrderedDict[str, None] = OrderedDict()
 
     def create_state_store(
         self,
@@ -107,8 +109,14 @@ class MemoryWorkflowStore(AbstractWorkflowStore):
     async def update(self, handler: PersistentHandler) -> None:
         self.handlers[handler.handler_id] = handler
         if is_terminal_status(handler.status):
-            self._terminal_queue.append(handler.handler_id)
+            # Enqueue on the first terminal update only: further terminal updates
+            # of the same handler must not add entries, or they would push out
+            # (and finally evict) completions that are still within the cap.
+            if handler.handler_id not in self._terminal_queue:
+                self._terminal_queue[handler.handler_id] = None
             self._evict_oldest_completed()
+        else:
+            self._terminal_queue.pop(handler.handler_id, None)
 
     async def delete(self, query: HandlerQuery) -> int:
         to_delete = [
@@ -118,19 +126,20 @@ class MemoryWorkflowStore(AbstractWorkflowStore):
         ]
         for handler_id in to_delete:
             del self.handlers[handler_id]
+            self._terminal_queue.pop(handler_id, None)
         return len(to_delete)
 
     def _evict_oldest_completed(self) -> None:
         """Remove the oldest completed handlers when the cap is exceeded.
 
-        Uses _terminal_queue (insertion-ordered deque) for O(1) eviction
-        instead of scanning and sorting all handlers.
+        Uses _terminal_queue (insertion-ordered set of handler ids) for O(1)
+        eviction instead of scanning and sorting all handlers.
         """
         if self.max_completed is None:
             return
 
         while len(self._terminal_queue) > self.max_completed:
-            handler_id = self._terminal_queue.popleft()
+            handler_id, _ = self._terminal_queue.popitem(last=False)
             handler = self.handlers.get(handler_id)
             if handler is None:
                 # Already removed (e.g. via delete()), skip.
